@@ -1,7 +1,7 @@
 // REPLAY_SOURCES: opm/io/eclipse/EclOutput.cpp
 // REPLAY_SEARCH
 // Native replay for C07/writer_*: the counterexample of a refuted writer obligation lives in ghost sink state, so the
-// driver searches the real writer instead: INTE / REAL / DOUB arrays of lengths around the 1000-element block boundary
+// driver searches the real writer instead: INTE / REAL / DOUB / LOGI arrays of lengths around the 1000-element block boundary
 // are written with the real EclOutput and the bytes on disk are decoded independently against the published layout
 // (24-byte header; blocks of at most 1000 elements framed by equal big-endian length words; elements big-endian, in
 // order; total size == sizeOnDiskBinary + header).  Exit 1 = a length on which the real writer breaks the layout.
@@ -38,6 +38,32 @@ static bool one(const std::string& file, std::size_t n, Opm::EclIO::eclArrType t
     if (p != b.size()) { w << "n=" << n << ": " << b.size() - p << " stray bytes after the last block"; return false; }
     return true;
 }
+// LOGI: every element is one 4-byte word, 0xffffffff (ECL flavour) / 0x01000000 (IX flavour) for true, 0 for false
+static bool logi(const std::string& file, std::size_t n, int pattern, std::ostringstream& w)
+{
+    std::vector<bool> data(n);
+    for (std::size_t i = 0; i < n; ++i)
+        data[i] = pattern == 0 ? (i % 1000 == 0 && i < 1000) : pattern == 1 ? (i * 2654435761u % 7u < 3u) : pattern == 2 ? (i < 1000) : (i % 2 == 0);
+    { Opm::EclIO::EclOutput out(file, false); out.write("FLAGS", data); }
+    std::ifstream is(file, std::ios::binary); std::vector<unsigned char> b((std::istreambuf_iterator<char>(is)), {});
+    const std::size_t expect = 24 + Opm::EclIO::sizeOnDiskBinary(n, Opm::EclIO::LOGI, 4);
+    if (b.size() != expect) { w << "LOGI n=" << n << ": file has " << b.size() << " bytes, size arithmetic says " << expect; return false; }
+    std::size_t p = 24, k = 0;
+    while (k < n) {
+        const std::size_t blk = std::min<std::size_t>(1000, n - k);
+        const std::uint32_t head = be32(&b[p]), tail = be32(&b[p + 4 + blk * 4]);
+        if (head != blk * 4 || tail != head) { w << "LOGI n=" << n << ": block at element " << k << " has head " << head << ", tail " << tail; return false; }
+        for (std::size_t i = 0; i < blk; ++i) {
+            const std::uint32_t word = be32(&b[p + 4 + i * 4]);
+            if (word != (data[k + i] ? 0xffffffffu : 0u)) {
+                w << "LOGI n=" << n << " pattern " << pattern << ": element " << k + i << " is " << (data[k + i] ? "true" : "false") << " but the word on disk is 0x" << std::hex << word;
+                return false;
+            }
+        }
+        p += 8 + blk * 4; k += blk;
+    }
+    return true;
+}
 int main(int argc, char** argv)
 {
     Replay r(argc, argv);
@@ -48,7 +74,8 @@ int main(int argc, char** argv)
     std::ostringstream w; bool ok = true;
     const std::string unit = argc > 3 ? argv[3] : "writer_int";
     for (std::size_t n : {0u, 1u, 2u, 999u, 1000u, 1001u, 1999u, 2000u, 2001u, 2999u, 3000u, 3001u, 4500u}) {
-        if (unit == "writer_float") ok = one<float>(f, n, Opm::EclIO::REAL, w);
+        if (unit == "writer_bool") { for (int pat = 0; ok && pat < 4; ++pat) ok = logi(f, n, pat, w); }
+        else if (unit == "writer_float") ok = one<float>(f, n, Opm::EclIO::REAL, w);
         else if (unit == "writer_double") ok = one<double>(f, n, Opm::EclIO::DOUB, w);
         else ok = one<int>(f, n, Opm::EclIO::INTE, w);
         if (!ok) break;
